@@ -1470,16 +1470,59 @@ func (s *Store) DeleteSeries(database string, sources []influxql.Source, conditi
 			} else if itr == nil {
 				continue
 			}
-			defer itr.Close()
-			if err := sh.DeleteSeriesRange(NewSeriesIteratorAdapter(sfile, itr), min, max); err != nil {
+
+			// Read the matching series up front and release the iterator before deleting.
+			// The iterator pins the index file set it was created from; the delete below
+			// waits for running TSI compactions, and a log file compaction in turn waits
+			// for every reference to the old log file to be dropped. Holding the iterator
+			// across the delete (or, as before, until all measurements were processed)
+			// deadlocks as soon as a log file is rolled by the deletes themselves.
+			elems, err := readAllSeriesIDElems(itr)
+			if err != nil {
 				return err
 			}
-
+			if err := sh.DeleteSeriesRange(NewSeriesIteratorAdapter(sfile, &seriesIDElemSliceIterator{elems: elems}), min, max); err != nil {
+				return err
+			}
 		}
 
 		return nil
 	})
 }
+
+// readAllSeriesIDElems drains and closes itr, keeping the filter expression of every element.
+func readAllSeriesIDElems(itr SeriesIDIterator) (elems []SeriesIDElem, err error) {
+	defer func() {
+		if e := itr.Close(); err == nil {
+			err = e
+		}
+	}()
+	for {
+		e, err := itr.Next()
+		if err != nil {
+			return nil, err
+		} else if e.SeriesID == 0 {
+			return elems, nil
+		}
+		elems = append(elems, e)
+	}
+}
+
+// seriesIDElemSliceIterator iterates over series id elements held in memory.
+type seriesIDElemSliceIterator struct {
+	elems []SeriesIDElem
+}
+
+func (itr *seriesIDElemSliceIterator) Next() (SeriesIDElem, error) {
+	if len(itr.elems) == 0 {
+		return SeriesIDElem{}, nil
+	}
+	e := itr.elems[0]
+	itr.elems = itr.elems[1:]
+	return e, nil
+}
+
+func (itr *seriesIDElemSliceIterator) Close() error { return nil }
 
 // ExpandSources expands sources against all local shards.
 func (s *Store) ExpandSources(sources influxql.Sources) (influxql.Sources, error) {
